@@ -19,63 +19,78 @@ def resStr {α : Type} (r : Res α) (f : α → String) : String :=
   | .oob => "MODEL-OOB"
   | .nofuel => "MODEL-NOFUEL"
 
-/-! ### description of a `JDoc` in one token (see tools/props/c17.py) -/
-open Percival.Spec.JVal in
-mutual
-partial def pVal (s : List Char) : Option (JDoc × List Char) :=
-  match s with
-  | 'n' :: r => some (.null, r)
-  | 't' :: r => some (.bool true, r)
-  | 'f' :: r => some (.bool false, r)
-  | '#' :: r => do let (b, r) ← pHex r; pure (.num b, r)
-  | 's' :: r => do let (x, r) ← pStr r; pure (.str x, r)
-  | 'a' :: r => do let (w, r) ← pHex r; pure (.arr0 w, r)
-  | 'o' :: r => do let (w, r) ← pHex r; pure (.obj0 w, r)
-  | 'A' :: r => do let (es, r) ← pElems r; pure (.arr es, r)
-  | 'O' :: r => do let (ms, r) ← pMembers r; pure (.obj ms, r)
-  | _ => none
+/-! ### description of a `JDoc` in one token (see tools/props/c17.py)
+
+Total, on fuel: every call is made with more fuel than there are characters left (each of `pVal`, `pElems`,
+`pMembers` consumes at least one character before it calls another one), so the `0` cases are never reached when the
+first call gets `length + 1`. -/
+open Percival.Spec.JVal
+
 /-- hex digits up to `.` -/
-partial def pHex (s : List Char) : Option (List UInt8 × List Char) :=
+def pHex (s : List Char) : Option (List UInt8 × List Char) :=
   let h := s.takeWhile (· != '.')
   match s.drop h.length with
   | '.' :: r => do let b ← bytesOfHexChars h; pure (b, r)
   | _ => none
-partial def pStr (s : List Char) : Option (JStr × List Char) :=
-  match s with
-  | '.' :: r => some ([], r)
-  | 'r' :: a :: b :: r => do
-      let x ← bytesOfHexChars [a, b]; let (t, r) ← pStr r
-      match x with | [c] => pure (.raw c :: t, r) | _ => none
-  | 'e' :: a :: b :: r => do
-      let x ← bytesOfHexChars [a, b]; let (t, r) ← pStr r
-      match x with | [c] => pure (.esc c :: t, r) | _ => none
-  | 'u' :: a :: b :: c :: d :: e :: f :: g :: h :: r => do
-      let x ← bytesOfHexChars [a, b, c, d, e, f, g, h]; let (t, r) ← pStr r
-      match x with | [p, q, u, v] => pure (.uni p q u v :: t, r) | _ => none
-  | _ => none
-partial def pElems (s : List Char) : Option (JElems × List Char) := do
-  let (wb, r) ← pHex s
-  let (v, r) ← pVal r
-  let (wa, r) ← pHex r
-  match r with
-  | ';' :: r => pure (.one wb v wa, r)
-  | ',' :: r => do let (rest, r) ← pElems r; pure (.more wb v wa rest, r)
-  | _ => none
-partial def pMembers (s : List Char) : Option (JMembers × List Char) := do
-  let (wb, r) ← pHex s
-  let (k, r) ← pStr r
-  let (wk, r) ← pHex r
-  let (wv, r) ← pHex r
-  let (v, r) ← pVal r
-  let (wa, r) ← pHex r
-  match r with
-  | ';' :: r => pure (.one wb k wk wv v wa, r)
-  | ',' :: r => do let (rest, r) ← pMembers r; pure (.more wb k wk wv v wa rest, r)
-  | _ => none
+
+def pStr : Nat → List Char → Option (JStr × List Char)
+  | 0, _ => none
+  | f+1, s =>
+    match s with
+    | '.' :: r => some ([], r)
+    | 'r' :: a :: b :: r => do
+        let x ← bytesOfHexChars [a, b]; let (t, r) ← pStr f r
+        match x with | [c] => pure (.raw c :: t, r) | _ => none
+    | 'e' :: a :: b :: r => do
+        let x ← bytesOfHexChars [a, b]; let (t, r) ← pStr f r
+        match x with | [c] => pure (.esc c :: t, r) | _ => none
+    | 'u' :: a :: b :: c :: d :: e :: f' :: g :: h :: r => do
+        let x ← bytesOfHexChars [a, b, c, d, e, f', g, h]; let (t, r) ← pStr f r
+        match x with | [p, q, u, v] => pure (.uni p q u v :: t, r) | _ => none
+    | _ => none
+
+mutual
+def pVal : Nat → List Char → Option (JDoc × List Char)
+  | 0, _ => none
+  | f+1, s =>
+    match s with
+    | 'n' :: r => some (.null, r)
+    | 't' :: r => some (.bool true, r)
+    | 'f' :: r => some (.bool false, r)
+    | '#' :: r => do let (b, r) ← pHex r; pure (.num b, r)
+    | 's' :: r => do let (x, r) ← pStr f r; pure (.str x, r)
+    | 'a' :: r => do let (w, r) ← pHex r; pure (.arr0 w, r)
+    | 'o' :: r => do let (w, r) ← pHex r; pure (.obj0 w, r)
+    | 'A' :: r => do let (es, r) ← pElems f r; pure (.arr es, r)
+    | 'O' :: r => do let (ms, r) ← pMembers f r; pure (.obj ms, r)
+    | _ => none
+def pElems : Nat → List Char → Option (JElems × List Char)
+  | 0, _ => none
+  | f+1, s => do
+    let (wb, r) ← pHex s
+    let (v, r) ← pVal f r
+    let (wa, r) ← pHex r
+    match r with
+    | ';' :: r => pure (.one wb v wa, r)
+    | ',' :: r => do let (rest, r) ← pElems f r; pure (.more wb v wa rest, r)
+    | _ => none
+def pMembers : Nat → List Char → Option (JMembers × List Char)
+  | 0, _ => none
+  | f+1, s => do
+    let (wb, r) ← pHex s
+    let (k, r) ← pStr f r
+    let (wk, r) ← pHex r
+    let (wv, r) ← pHex r
+    let (v, r) ← pVal f r
+    let (wa, r) ← pHex r
+    match r with
+    | ';' :: r => pure (.one wb k wk wv v wa, r)
+    | ',' :: r => do let (rest, r) ← pMembers f r; pure (.more wb k wk wv v wa rest, r)
+    | _ => none
 end
 
 def parseDoc (s : String) : Option Spec.JVal.JDoc :=
-  match pVal s.toList with
+  match pVal (s.length + 1) s.toList with
   | some (d, []) => some d
   | _ => none
 
